@@ -67,32 +67,56 @@ Utf8Valid3(a, b, c) == \/ Ascii(a) /\ Ascii(b) /\ Ascii(c)
 (***************************************************************************)
 IterChunks(data, nc, UCH(_), UCHV(_)) ==
   LET n == Len(data)
-      Excess(acc, w2) == [acc EXCEPT !.done = TRUE, !.w = w2 \cup {"ChunksUnknownData"}]
+      \* the call that finds data it cannot parse: its warnings are the header's (if a header was read)
+      \* and ChunksUnknownData; the iterator drops the rest of the area
+      Excess(acc, hw) == [acc EXCEPT !.done = TRUE, !.excess = TRUE, !.endw = hw \cup {"ChunksUnknownData"},
+                                     !.w = @ \cup hw \cup {"ChunksUnknownData"}]
       Step(acc, k) ==
         IF acc.done THEN acc
         ELSE LET rem == n - acc.pos IN
           IF rem = 0
-          THEN [acc EXCEPT !.done = TRUE,
-                           !.w = @ \cup (IF Len(acc.chunks) # nc THEN {"ChunksNumChunks"} ELSE {})]
-          ELSE IF rem < 2 THEN Excess(acc, acc.w)
+          THEN LET nw == IF Len(acc.chunks) # nc THEN {"ChunksNumChunks"} ELSE {} IN
+               [acc EXCEPT !.done = TRUE, !.endw = nw, !.w = @ \cup nw]
+          ELSE IF rem < 2 THEN Excess(acc, {})
           ELSE LET b1 == data[acc.pos + 1]
                    b2 == data[acc.pos + 2]
                    vital == (b1 \div 64) % 2 = 1
-               IN IF vital /\ rem < 3 THEN Excess(acc, acc.w)
+               IN IF vital /\ rem < 3 THEN Excess(acc, {})
                   ELSE LET u == IF vital THEN UCHV(<<b1, b2, data[acc.pos + 3]>>)
                                          ELSE UCH(<<b1, b2>>)
                            hs == IF vital THEN 3 ELSE 2
-                           w2 == acc.w \cup u.w
-                       IN IF rem - hs < u.h.size THEN Excess(acc, w2)
+                       IN IF rem - hs < u.h.size THEN Excess(acc, u.w)
                           ELSE [acc EXCEPT
                                   !.pos = @ + hs + u.h.size,
-                                  !.w = w2,
+                                  !.w = @ \cup u.w,
+                                  !.cw = Append(@, u.w),
                                   !.chunks = Append(@, [off |-> acc.pos + hs,
                                                         len |-> u.h.size,
                                                         vital |-> vital,
                                                         seq |-> IF vital THEN u.h.seq ELSE 0,
                                                         resend |-> vital /\ u.h.flags \div 2 = 1])]
-  IN FoldLeft(Step, [pos |-> 0, chunks |-> <<>>, w |-> {}, done |-> FALSE], Iota(n \div 2 + 1))
+  IN FoldLeft(Step, [pos |-> 0, chunks |-> <<>>, w |-> {}, done |-> FALSE,
+                     cw |-> <<>>,              \* warnings of the call that returned chunk j
+                     endw |-> {},              \* warnings of the first call that returned None
+                     excess |-> FALSE],        \* that call found unparsable data (and dropped the rest)
+              Iota(n \div 2 + 1))
+
+(***************************************************************************)
+(* The iterator call by call (what a user of next_warn / pos / len sees).  *)
+(* With it = IterChunks(..), m = Len(it.chunks):                           *)
+(*   before call j <= m :  pos = end of chunk j-1 (0 for j = 1),           *)
+(*                         len() = m - (j-1)   (ExactSizeIterator)         *)
+(*   call j <= m        :  chunk j, warnings it.cw[j]                      *)
+(*   call m+1           :  None, warnings it.endw; afterwards pos = Len(data) *)
+(*   call m+2           :  None; ChunksNumChunks now if the area ended in  *)
+(*                         unparsable data and m # nc (the count is only   *)
+(*                         compared once the area is exhausted)            *)
+(*   later calls        :  None, no warning                                *)
+(***************************************************************************)
+IterPosBefore(it, j) == IF j = 1 THEN 0 ELSE it.chunks[j - 1].off + it.chunks[j - 1].len
+IterLenBefore(it, j) == Len(it.chunks) - (j - 1)
+IterAfterW(it, nc, k) ==        \* warnings of the k-th call after the first None
+  IF k = 1 /\ it.excess /\ Len(it.chunks) # nc THEN {"ChunksNumChunks"} ELSE {}
 
 \* the bytes of one chunk as the writer lays them out
 \* c = [vital |-> BOOLEAN, seq |-> 0..1023, resend |-> BOOLEAN, data |-> bytes]
